@@ -79,6 +79,8 @@ pub struct Interp<'p> {
     /// shapes of evaluation on which the statement of C02 is silent or on which the
     /// two back ends are known to differ (dynamic quarantine predicates)
     pub flags: BTreeSet<&'static str>,
+    /// names of the named functions with a live activation (innermost last)
+    active: Vec<String>,
     /// state cells touched in the last sample: (path, kind)
     pub touched: u64,
 }
@@ -112,6 +114,7 @@ impl<'p> Interp<'p> {
             steps: 0,
             max_steps: 2_000_000,
             flags: BTreeSet::new(),
+            active: vec![],
             touched: 0,
         };
         // global initialisation, in textual order
@@ -167,7 +170,15 @@ impl<'p> Interp<'p> {
             _ => zero(&f.ret),
         };
         let mut fr = Frame { path, self_val: Some(self_val) };
-        let r = self.block(&f.body, &env, &mut fr)?;
+        // dynamic quarantine predicate: a function with a tuple/record parameter entered while one of
+        // its activations is still live (the WASM code generator keeps such parameters in one place)
+        if f.params.iter().any(|p| matches!(p.ty, Ty::Tup(_) | Ty::Rec(_))) && self.active.iter().any(|n| n == name) {
+            self.flags.insert("reentrant_call_with_aggregate_parameter");
+        }
+        self.active.push(name.to_string());
+        let r = self.block(&f.body, &env, &mut fr);
+        self.active.pop();
+        let r = r?;
         if f.ret.is_data() {
             self.state.insert(key, StCell::Feed(r.clone()));
         }
